@@ -172,6 +172,8 @@ class keymap(object):
 
     def encrypt(self, *args, **kwds):
         """use a non-flat scheme for generating a key"""
+        # order of keywords in the call should not influence the key
+        kwds = dict(self._sorted(list(kwds.items())))
         key = (args, kwds) #XXX: pickles larger, but is simpler to unpack
         if self.typed:
             sorted_items = self._sorted(list(kwds.items()))
